@@ -145,9 +145,11 @@ func envInt(name string, def int64) int64 {
 var slugRe = regexp.MustCompile(`[^A-Za-z0-9]+`)
 
 func slug(s string) string {
+	full := s
 	s = slugRe.ReplaceAllString(s, "-")
 	if len(s) > 60 {
-		s = s[:60]
+		// keep the names apart that only differ beyond the cut
+		s = s[:60] + "-" + hashOf([]byte(full))[:6]
 	}
 	return strings.Trim(s, "-")
 }
